@@ -112,7 +112,7 @@ type c12file struct {
 	buildID string
 }
 
-func (f *c12file) Name() string                         { return f.name }
+func (f *c12file) Name() string                        { return f.name }
 func (f *c12file) ObjAddr(addr uint64) (uint64, error) { return addr, nil }
 func (f *c12file) BuildID() string {
 	if f.buildID == "match" {
@@ -121,7 +121,7 @@ func (f *c12file) BuildID() string {
 	return f.buildID
 }
 func (f *c12file) Symbols(r *regexp.Regexp, addr uint64) ([]*plugin.Sym, error) { return nil, nil }
-func (f *c12file) Close() error                                                     { return nil }
+func (f *c12file) Close() error                                                 { return nil }
 func (f *c12file) SourceLine(addr uint64) ([]plugin.Frame, error) {
 	fk := f.w.next(pcSourceLine)
 	switch fk {
